@@ -260,6 +260,16 @@ func Eq(a, b *Term) *Term {
 	if a == b {
 		return TTrue
 	}
+	if a.S.K == KInt && b.S.K == KInt {
+		if av, ok := groundInt(a); ok {
+			if bv, ok := groundInt(b); ok {
+				if av.Cmp(bv) == 0 {
+					return TTrue
+				}
+				return TFalse
+			}
+		}
+	}
 	if len(a.Args) == 0 && len(b.Args) == 0 && a.Op == b.Op {
 		return TTrue
 	}
@@ -271,6 +281,12 @@ func Ite(c, a, b *Term) *Term {
 		return a
 	}
 	if c.IsFalse() {
+		return b
+	}
+	if v, ok := groundBool(c); ok {
+		if v {
+			return a
+		}
 		return b
 	}
 	if a == b {
@@ -419,4 +435,132 @@ func smtName(s string) string {
 	s = strings.ReplaceAll(s, "|", "!")
 	s = strings.ReplaceAll(s, "\\", "!")
 	return "|" + s + "|"
+}
+
+// ---------------------------------------------------------------- ground evaluation (Int / Bool), used for constant folding
+
+func groundInt(t *Term) (*big.Int, bool) {
+	if t.S.K != KInt {
+		return nil, false
+	}
+	if v, ok := intLitVal(t); ok {
+		return v, true
+	}
+	if len(t.Args) == 0 {
+		return nil, false
+	}
+	switch t.Op {
+	case "+", "-", "*", "div", "mod":
+		vals := make([]*big.Int, len(t.Args))
+		for i, a := range t.Args {
+			v, ok := groundInt(a)
+			if !ok {
+				return nil, false
+			}
+			vals[i] = v
+		}
+		r := new(big.Int).Set(vals[0])
+		switch t.Op {
+		case "+":
+			for _, v := range vals[1:] {
+				r.Add(r, v)
+			}
+		case "-":
+			if len(vals) == 1 {
+				return r.Neg(r), true
+			}
+			for _, v := range vals[1:] {
+				r.Sub(r, v)
+			}
+		case "*":
+			for _, v := range vals[1:] {
+				r.Mul(r, v)
+			}
+		case "div", "mod":
+			if len(vals) != 2 || vals[1].Sign() == 0 {
+				return nil, false
+			}
+			// SMT-LIB: Euclidean division
+			q, m := new(big.Int).DivMod(vals[0], vals[1], new(big.Int))
+			if t.Op == "div" {
+				return q, true
+			}
+			return m, true
+		}
+		return r, true
+	case "ite":
+		c, ok := groundBool(t.Args[0])
+		if !ok {
+			return nil, false
+		}
+		if c {
+			return groundInt(t.Args[1])
+		}
+		return groundInt(t.Args[2])
+	}
+	return nil, false
+}
+
+func groundBool(t *Term) (bool, bool) {
+	if t.IsTrue() {
+		return true, true
+	}
+	if t.IsFalse() {
+		return false, true
+	}
+	switch t.Op {
+	case "not":
+		if len(t.Args) == 1 {
+			v, ok := groundBool(t.Args[0])
+			return !v, ok
+		}
+	case "and", "or":
+		res := t.Op == "and"
+		for _, a := range t.Args {
+			v, ok := groundBool(a)
+			if !ok {
+				return false, false
+			}
+			if t.Op == "and" && !v {
+				return false, true
+			}
+			if t.Op == "or" && v {
+				return true, true
+			}
+		}
+		return res, true
+	case "=", "<", "<=", ">", ">=":
+		if len(t.Args) != 2 || t.Args[0].S.K != KInt {
+			return false, false
+		}
+		a, ok1 := groundInt(t.Args[0])
+		b, ok2 := groundInt(t.Args[1])
+		if !ok1 || !ok2 {
+			return false, false
+		}
+		c := a.Cmp(b)
+		switch t.Op {
+		case "=":
+			return c == 0, true
+		case "<":
+			return c < 0, true
+		case "<=":
+			return c <= 0, true
+		case ">":
+			return c > 0, true
+		default:
+			return c >= 0, true
+		}
+	}
+	return false, false
+}
+
+// foldInt returns a literal for a ground Int term, else the term itself.
+func foldInt(t *Term) *Term {
+	if t.S.K == KInt && len(t.Args) > 0 {
+		if v, ok := groundInt(t); ok {
+			return IntLit(v)
+		}
+	}
+	return t
 }
